@@ -301,6 +301,106 @@ theorem source_flag_faces_index_multiple_of_quantum (P : FlagFacesIn) (hn : 0 < 
   rw [(source_flag_faces_index_is_scaled_holonomy P er w hw).1]
   exact Mouette.Props.C18.index_scale_every_order P.order hn _ K hK
 
+/-- **refinement adjacency form → edge list.** If the loop over `vertex_to_edges(v)` sees, up to order, exactly the (other end, rotation) pairs of the
+edges incident to `v` (each once: the contract of `connectivity.vertex_to_edges` / `other_edge_end`, C01), then the sum the translated code
+accumulates IS `FF.vertexAngle` of the round-1 model — so `index_sum_telescopes`, `index_quantised`, `index_total_is_scale_times_chi` and the 4χ
+theorem over ℝ speak about the numbers the source stores -/
+theorem source_flag_faces_holonomy_refines (P : FlagFacesIn) (rot : Nat → Rat) (es : List REdge) (v : Nat)
+    (hperm : ((P.vertexEdges v).map (fun e => (P.otherEnd e v, rot e))).Perm (incidentPairs es v)) :
+    holonomyAdjM P rot v = vertexAngle P.defect es v := holonomyAdj_refines P rot es v hperm
+
+/-- hence the scaled sums the translated vertex loop would store at ALL vertices add up to 4 × (Σ defects), i.e. to 4χ with Gauss–Bonnet -/
+theorem source_flag_faces_index_total (P : FlagFacesIn) (rot : Nat → Rat) (es : List REdge) (chi : Rat)
+    (hperm : ∀ v, v < P.nV → ((P.vertexEdges v).map (fun e => (P.otherEnd e v, rot e))).Perm (incidentPairs es v))
+    (hmesh : ∀ e ∈ es, e.a ≠ e.b ∧ e.a < P.nV ∧ e.b < P.nV) (hGB : sumTo P.defect P.nV = chi) :
+    sumTo (fun v => indexOf (holonomyAdjM P rot v)) P.nV = 4 * chi := by
+  rw [← Mouette.Props.C18.index_total_is_scale_times_chi P.nV P.defect es chi hmesh hGB]
+  apply sumTo_congr
+  intro v hv
+  rw [holonomyAdj_refines P rot es v (hperm v hv)]
+
+/-! ## vertex-based `_initialize_variables`, whole body translated -/
+
+/-- both accumulation branches (projection branch with its cancellation guards, `B` before `A`; transport branch, `A` before `B`) and the
+normalisation loop over `feature_vertices` are the round-2 model `FFV.initVertsFull`, fed with the contributions in code order and the moduli
+of the accumulated sums — GIVEN the contract of `abs` (the guard compares `abs`, the model squared moduli) and a duplicate-free
+`feature_vertices` (it is a set) -/
+theorem bridge_init_variables_vertices (N : Num) (hc : AbsContract N) (order n : Nat) (sn : Bool) (proj rect : Nat → Nat → Cpx)
+    (fes : List VFeatEdge) (featV : List Nat) (hnd : featV.Nodup) :
+    C18S.initVariablesVerts N order sn proj rect fes featV (List.replicate n czero)
+      = FFV.initVertsFull order n sn (if FFV.guardedBranch sn order then contribsGuarded N proj fes else contribsPlain rect fes) featV
+          ((initVerts order n (FFV.guardedBranch sn order)
+            (if FFV.guardedBranch sn order then contribsGuarded N proj fes else contribsPlain rect fes)).map N.abs) :=
+  initVariablesVerts_bridge N hc order n sn proj rect fes featV hnd
+
+/-- hence, for the translated body: a feature vertex whose accumulated sum has modulus above `1e-8` carries a UNIT constraint -/
+theorem source_init_vertices_constraint_unit (N : Num) (hc : AbsContract N) (order n : Nat) (sn : Bool) (proj rect : Nat → Nat → Cpx)
+    (fes : List VFeatEdge) (featV : List Nat) (hnd : featV.Nodup) (A : Nat) (hA : A ∈ featV)
+    (hlt : A < (initVerts order n (FFV.guardedBranch sn order)
+      (if FFV.guardedBranch sn order then contribsGuarded N proj fes else contribsPlain rect fes)).length)
+    (hthr : FFV.featThreshold < N.abs ((initVerts order n (FFV.guardedBranch sn order)
+      (if FFV.guardedBranch sn order then contribsGuarded N proj fes else contribsPlain rect fes)).getD A czero)) :
+    normSq ((C18S.initVariablesVerts N order sn proj rect fes featV (List.replicate n czero)).getD A czero) = 1 := by
+  rw [initVariablesVerts_bridge N hc order n sn proj rect fes featV hnd]
+  apply Mouette.Props.C18.vertex_constraint_unit order n sn _ featV _ A hA hnd hlt
+  · rw [getD_map_abs N hc]; exact hthr
+  · rw [getD_map_abs N hc]; exact hc.sq _
+
+/-- … and a vertex that is no feature vertex keeps what the accumulation left there (nothing, when no feature edge ends at it) -/
+theorem source_init_vertices_free_untouched (N : Num) (hc : AbsContract N) (order n : Nat) (sn : Bool) (proj rect : Nat → Nat → Cpx)
+    (fes : List VFeatEdge) (featV : List Nat) (hnd : featV.Nodup) (i : Nat) (hi : i ∉ featV) :
+    (C18S.initVariablesVerts N order sn proj rect fes featV (List.replicate n czero)).getD i czero
+      = (initVerts order n (FFV.guardedBranch sn order)
+          (if FFV.guardedBranch sn order then contribsGuarded N proj fes else contribsPlain rect fes)).getD i czero := by
+  rw [initVariablesVerts_bridge N hc order n sn proj rect fes featV hnd]
+  unfold FFV.initVertsFull
+  exact Mouette.Props.C18.vertex_init_free_untouched _ featV _ i hi
+
+/-! ## vertex-based `flag_singularities`, whole body translated -/
+
+/-- edge loop: the dict and the `angles` attribute hold the round-2 model's matched rotation `FFV.edgeRotV` of every edge, with the signs
+`(A,B) ↦ +r`, `(B,A) ↦ −r`, attribute `−r` the source states -/
+theorem bridge_flag_vertices_edge_rot (P : FlagVertsIn) (old : Option FFH.Attr) :
+    C18S.flagEdgeRotVerts P old = (dictOfM (resM P), FFH.flagInto C18H.vertsRotCleared old (attrWritesM P)) :=
+  flagEdgeRotVerts_bridge P old
+
+theorem bridge_flag_vertices_singuls (P : FlagVertsIn) (d : Dict) (old : Option FFH.Attr) :
+    C18S.flagSingulsVerts P d old = FFH.flagInto C18H.vertsSingulsCleared old (singulsVM P d) := flagSingulsVerts_bridge P d old
+
+/-- on a well-formed edge list (no self loop, no undirected edge twice: `FFV.uniqueEdges`) READING the dict the translated loop built is
+the model's `rotD` — so every theorem about `FFV.holonomy` / `faceAngle` (quantisation for every order, telescoping over the faces) speaks
+about the numbers the source adds up -/
+theorem source_flag_vertices_dict_is_rotD (P : FlagVertsIn) (old : Option FFH.Attr) (hu : FFV.uniqueEdges (resM P) = true) (u v : Nat) :
+    (C18S.flagEdgeRotVerts P old).1 u v = FFV.rotD (resM P) u v := by
+  rw [flagEdgeRotVerts_bridge]; exact dictOfM_eq_rotD (resM P) hu u v
+
+/-- the quantity whose sign is stored is `FFV.faceAngle` of the model when the harness-supplied curvature is the model's -/
+theorem source_flag_vertices_face_angle (P : FlagVertsIn) (old : Option FFH.Attr) (hu : FFV.uniqueEdges (resM P) = true)
+    (t : Nat → Nat → Rat) (it : Nat × Nat × Nat × Nat) (hcurv : P.curv it.1 = FFV.curvature t { A := it.2.1, B := it.2.2.1, C := it.2.2.2 }) :
+    faceAngleAdjM (C18S.flagEdgeRotVerts P old).1 P.curv it = FFV.faceAngle (resM P) t { A := it.2.1, B := it.2.2.1, C := it.2.2.2 } := by
+  unfold faceAngleAdjM FFV.faceAngle FFV.holonomy
+  rw [source_flag_vertices_dict_is_rotD P old hu, source_flag_vertices_dict_is_rotD P old hu, source_flag_vertices_dict_is_rotD P old hu, hcurv]
+  simp
+
+/-- every flag the translated face loop stores is `+1` above the threshold, `−1` below its negative, and nothing in between -/
+theorem source_flag_vertices_flag_is_sign (P : FlagVertsIn) (d : Dict) (w : Nat × Rat) (hw : w ∈ C18S.flagSingulsVerts P d none) :
+    ∃ it ∈ P.faces, w.1 = it.1 ∧ ((w.2 = 1 ∧ P.thrTurns < faceAngleAdjM d P.curv it) ∨ (w.2 = -1 ∧ faceAngleAdjM d P.curv it < -P.thrTurns)) := by
+  rw [flagSingulsVerts_bridge] at hw
+  simp only [FFH.flagInto, List.nil_append] at hw
+  unfold singulsVM at hw
+  obtain ⟨it, hit, hv⟩ := List.mem_filterMap.mp hw
+  refine ⟨it, hit, ?_⟩
+  split at hv
+  · rename_i h; injection hv with hv; subst hv; exact ⟨rfl, Or.inl ⟨rfl, h⟩⟩
+  · split at hv
+    · rename_i h; injection hv with hv; subst hv; exact ⟨rfl, Or.inr ⟨rfl, h⟩⟩
+    · exact absurd hv (by simp)
+
+theorem source_flag_vertices_independent_of_history (P : FlagVertsIn) (d : Dict) (old : Option FFH.Attr) :
+    C18S.flagEdgeRotVerts P old = C18S.flagEdgeRotVerts P none ∧ C18S.flagSingulsVerts P d old = C18S.flagSingulsVerts P d none := by
+  rw [flagEdgeRotVerts_bridge, flagEdgeRotVerts_bridge, flagSingulsVerts_bridge, flagSingulsVerts_bridge]
+  cases old <;> simp [FFH.flagInto, C18H.vertsRotCleared, C18H.vertsSingulsCleared]
+
 /-! ## non-vacuity -/
 section examples
 /-- a toy `Num`: exact moduli on the few values used below; the "solver" of a 1×1 unit system -/
@@ -328,6 +428,14 @@ def toyFlag : FlagFacesIn :=
     otherEnd := fun _ _ => 1, thrTurns := 1 / 6000 }
 example : C18S.flagEdgeRotFaces toyFlag (some [(5, 1)]) = [(0, 1 / 32)] := by decide +kernel
 example : C18S.flagSingulsFaces toyFlag [(0, 1 / 32)] none = [(2, 9 / 8)] := by decide +kernel
+def toyFlagV : FlagVertsIn :=
+  { order := 4, edges := [(0, 0, 1), (1, 1, 2), (2, 0, 2)], faces := [(0, 0, 1, 2)], theta := fun v => if v = 2 then 1 / 3 else 0,
+    tr := fun a b => if a < b then 0 else 1 / 2, curv := fun _ => 1 / 16, thrTurns := 1 / 600 }
+example : FFV.uniqueEdges (resM toyFlagV) = true := by decide +kernel
+example : (C18S.flagEdgeRotVerts toyFlagV none).2 = [(0, 0), (1, -1 / 12), (2, -1 / 12)] := by decide +kernel
+example : C18S.flagSingulsVerts toyFlagV (C18S.flagEdgeRotVerts toyFlagV none).1 (some [(7, 1)]) = [(0, 1)] := by decide +kernel
+example : C18S.initVariablesVerts toyNum 2 false (fun _ _ => cone) (fun a b => if a < b then cone else ((0 : Rat), (1 : Rat)))
+    [{ id := 0, a := 0, b := 1 }] [0, 1] (List.replicate 3 czero) = [cone, cneg cone, czero] := by decide +kernel
 end examples
 
 end Mouette.Props.C18Source
